@@ -316,7 +316,7 @@ def generate(p):
             for s1, r in _run_to_completion(interp, st, p, vals):
                 run.paths += 1
                 if len(run.path_pcs) < 400:
-                    run.path_pcs.append(list(s1.pc))
+                    run.path_pcs.append((list(s1.pc), interp.inputs, 'raise' if isinstance(r, Raise) else 'return'))
                 if isinstance(r, Raise):
                     e = r.exc
                     run.outcomes[e.cls.__name__] = run.outcomes.get(e.cls.__name__, 0) + 1
